@@ -56,6 +56,9 @@ type FidCase struct {
 	// was started after all submissions (same backend, same chain storage, nothing cached).
 	FailAdds  []int
 	ColdReads bool
+	// CorruptGets (external storage): these chain-storage reads, counted like FailGets, return the chain with
+	// one octet changed and no error (a damaged read); afterwards storage is healthy again
+	CorruptGets []int
 	// Verbosity is the process-wide klog -v level
 	Verbosity int
 }
@@ -118,6 +121,9 @@ func genFid(t *rapid.T) FidCase {
 			c.FailAdds = append(c.FailAdds, rapid.IntRange(0, 8).Draw(t, "failadd"))
 		}
 		c.ColdReads = rapid.Bool().Draw(t, "cold")
+		for i, nf := 0, rapid.IntRange(0, 2).Draw(t, "ncorrupt"); i < nf; i++ {
+			c.CorruptGets = append(c.CorruptGets, rapid.IntRange(0, 6).Draw(t, "corruptget"))
+		}
 	}
 	if rapid.IntRange(0, 24).Draw(t, "huge") == 0 {
 		// big, big, big, small, big, small: the whole tree in one range is well over 8 MiB
@@ -361,12 +367,27 @@ func checkFid(t *testing.T, c FidCase) (v harness.Verdict) {
 			return nil
 		}
 	}
+	corruptAt := map[int]bool{}
+	if store != nil && len(c.CorruptGets) > 0 {
+		base := getCalls()
+		for _, k := range c.CorruptGets {
+			corruptAt[base+k] = true
+		}
+		store.Corrupt = func(key, chain []byte) []byte {
+			// called under the store's lock, after the call counter moved on
+			if n := store.GetCalls - 1; corruptAt[n] && len(chain) > 0 {
+				chain[len(chain)/2] ^= 0x40
+				v.Class("damaged-storage-read")
+			}
+			return chain
+		}
+	}
 	faultIn := func(from, to int) bool {
-		if store == nil || store.FailGet == nil {
+		if store == nil {
 			return false
 		}
 		for n := from; n < to; n++ {
-			if store.FailGet(n) != nil {
+			if corruptAt[n] || (store.FailGet != nil && store.FailGet(n) != nil) {
 				return true
 			}
 		}
